@@ -1,6 +1,7 @@
 import NanoVerif.Proofs.AugLag
 import NanoVerif.Proofs.PenaltySolver
 import NanoVerif.Proofs.PenaltyState
+import NanoVerif.Proofs.PenaltyGen
 import Mathlib.Algebra.Order.Ring.Abs
 import Mathlib.Algebra.Order.Field.Rat
 import Mathlib.Tactic.NormNum
@@ -13,6 +14,11 @@ import Mathlib.Tactic.NormNum
   All statements are about exact arithmetic: `α` is an arbitrary linear ordered field. Helper lemmas and the
   specification-side definitions (`linearDef`, `quadraticDef`, `alDef`, `…Grad`, `Feasible`, `Consistent`) live in
   `Proofs/Penalty.lean` and `Proofs/AugLag.lean`.
+
+  Translation round: the per-constraint kernels of the three `do_vgrad`s, `make_ro1`, `make_criterion`, the decisions and updates of
+  both outer loops and `solver_t::more_precise` are regenerated from the C++ text on every check (`Gen/PenaltyKernels.lean`,
+  `Gen/AugLagStep.lean`, by `tools/props/c05_translate.py`); `Proofs/PenaltyGen.lean` proves, for every scalar type, that the model's
+  definitions ARE the generated ones (`model_…_is_generated`), so every theorem below is about the formulas of the current source.
 -/
 namespace NanoVerif.Penalty
 open NanoVerif.Constraint
